@@ -233,9 +233,12 @@ def run(ctx):
     runlevel.with_extra(ctx, "c02toggle", lambda: option_toggle_specs(ctx))
     stats, samples = runlevel.pipe_replay(ctx, rep, "C02")
     fcov = runlevel.filter_events(ctx, rep, want_clauses=("feasible",))
+    # ONE WHOLE CALL of optimize() (Opt.init + Full.step + Opt.finish, the model of Props/C02Opt.lean): every pool run through the whole-call model
+    wstats = runlevel.whole_replay(ctx, rep, plain_only=True)
     traces = runlevel.get_pool(ctx)
     ncons_calls = sum(len(t["final"].get("cons_at_calls", [])) for t in traces if t.get("final"))
     rep.coverage = {
+        "whole_run_model": wstats,
         "evaluations": ncons_calls + ncon + fcov["filter_events"], "distinct_nontrivial": stats["infeasible_candidates_dropped"] + cstats["infeasible_x0"] + cstats["infeasible_after_snap"],
         "rule": "the user's constraint re-asked at every point passed to the target in traced runs with constraints (ball, half-space, slab, ring); every contraints_check call (feasibility clause, Lean predicate); "
                 "provenance through Pipe.step; construction with start points infeasible before/after snapping; non-trivial = candidate rows dropped by the constraint stage + rejected constructions",
